@@ -33,7 +33,9 @@ DERIVE = ('to_frame', 'to_frame_go', 'to_frame_he', 'iloc_null', 'iloc_cols', 'i
           'sort_columns', 'reindex', 'mul', 'neg', 'transpose', 'set_index', 'iter_group', 'iter_window', 'astype', 'assign', 'drop', 'fillna',
           'shift', 'roll', 'insert', 'concat', 'ctor_frame', 'ctor_framego', 'copycopy', 'deepcopy', 'pickle', 'static_to_go', 'columns_static',
           'columns_copy', 'head', 'T_go', 'loc_all', 'unset_index', 'isna', 'clip', 'from_items', 'drop_rows_iloc', 'drop_rows_list', 'drop_rows_loc',
-          'dropna', 'sort_values', 'tail', 'loc_rows', 'iloc_row_list', 'relabel_index', 'astype_col', 'assign_rows')
+          'dropna', 'sort_values', 'tail', 'loc_rows', 'iloc_row_list', 'relabel_index', 'astype_col', 'assign_rows',
+          'iter_element_apply', 'iter_element_items_apply', 'iter_element_map_any', 'iter_element_map_fill', 'index_to_frame_go', 'columns_to_frame_go',
+          'apply_series_rows', 'via_T_add', 'isin', 'rank_like_abs', 'to_frame_go_astype', 'clip_go')
 READ = ('values', 'len', 'display', 'columns_values', 'dtypes', 'iter', 'none')
 # content-preserving derivations that are also taken from a frame *immediately* after it has grown, before
 # anything re-reads it (observation refreshes lazily rebuilt caches and would hide stale state)
@@ -527,6 +529,30 @@ def derive(f, s, stp):
             return f.astype[list(f.columns)[i % m]](object) if m and f.columns.depth == 1 else None
         if s == 'assign_rows':
             return f.assign.iloc[0](-1) if n and m else None
+        if s == 'iter_element_apply':
+            return f.iter_element().apply(lambda x: x)
+        if s == 'iter_element_items_apply':
+            return f.iter_element_items().apply(lambda k, x: x)
+        if s == 'iter_element_map_any':
+            return f.iter_element().map_any({0: 100})
+        if s == 'iter_element_map_fill':
+            return f.iter_element().map_fill({0: 100}, fill_value=-1)
+        if s == 'index_to_frame_go':
+            return f.index.to_frame_go() if f.index.depth > 1 else None
+        if s == 'columns_to_frame_go':
+            return f.columns.to_frame_go() if f.columns.depth > 1 else None
+        if s == 'apply_series_rows':
+            return f.iter_series(axis=1).apply(lambda r: r.iloc[0]) if m and n else None
+        if s == 'via_T_add':
+            return f.via_T + np.zeros(n, dtype=int) if n and m and all(d.kind in 'iuf' for d in f.dtypes.values) else None
+        if s == 'isin':
+            return f.isin((0, 1))
+        if s == 'rank_like_abs':
+            return abs(f) if all(d.kind in 'iuf' for d in f.dtypes.values) and m else None
+        if s == 'to_frame_go_astype':
+            return f.to_frame_go().astype(object)
+        if s == 'clip_go':
+            return f.clip(upper=10 ** 9) if all(d.kind in 'iuf' for d in f.dtypes.values) and m else None
         if s == 'from_items':
             return sf.FrameGO.from_items(f.items(), index=f.index) if f.columns.depth == 1 else None
         return None
